@@ -431,6 +431,20 @@ def _replay(case, spec, idmap, by_rev, universe, backends, full_model, tdb):
                 b.commit()
             durable = pending
             queue = queue[len(take):]
+            if g.get("redo"):
+                # the same revisions are added once more in a later write
+                # group (a sequence with a repetition): nothing may be lost
+                for b in backends:
+                    b.start()
+                for revid in take:
+                    rev, entries = by_rev[revid]
+                    for b in backends:
+                        b.feed(rev, entries)
+                for b in backends:
+                    b.commit()
+                for b in backends:
+                    b.reopen(True)
+                reopens += 1
         elif end == "abort":
             for b in active:
                 b.abort()
@@ -503,6 +517,7 @@ def gen_case(draw):
             "after": draw(st.sampled_from(["none", "soft", "hard", "hard"])),
             "repack": draw(st.sampled_from([False] * 11 + [True])),
             "probe": draw(st.sampled_from([True, False])),
+            "redo": draw(st.sampled_from([False] * 5 + [True])),
         })
     return {"verifiers": draw(st.booleans()), "spec": spec, "groups": groups,
             "picks": draw(st.lists(st.integers(0, 5), min_size=1,
